@@ -42,6 +42,13 @@ fn main() {
             0
         }
         "survey" => survey(&args),
+        "fuzz-seeds" => fuzz_seeds(&args),
+        "fuzz-replay" => fuzz_replay(&args),
+        "fuzz-report" => fuzz_report(&args),
+        "fuzzable" => {
+            let ok = verif::fuzz::FUZZABLE.contains(&args.get(2).map(|s| s.as_str()).unwrap_or(""));
+            if ok { 0 } else { 1 }
+        }
         "render" => {
             render_debug(&args);
             0
@@ -701,4 +708,113 @@ fn render_debug(args: &[String]) {
         println!("=== #{i} rich={r}\n{text}<<<");
         println!("{}", verif::drive::parse_str(&text).dump());
     }
+}
+
+
+/// `verif fuzz-seeds <ID> <dir>`: small valid seed inputs for the text-based targets (the
+/// structured targets start from an empty corpus).
+fn fuzz_seeds(args: &[String]) -> i32 {
+    let id = &args[2];
+    let dir = &args[3];
+    std::fs::create_dir_all(dir).expect("seed dir");
+    let text_props = ["C01", "C02", "C07", "C10", "C12", "C14", "C17", "C19"];
+    let mut n = 0;
+    if text_props.contains(&id.as_str()) {
+        for (i, d) in verif::gen::seed_docs().iter().enumerate() {
+            if d.len() <= 400 {
+                std::fs::write(format!("{dir}/seed-{i:04}"), d.as_bytes()).ok();
+                n += 1;
+            }
+        }
+    } else {
+        // a few random byte strings so that the pass-through decoders have material
+        for i in 0..64u64 {
+            let b = verif::engine::seed_bytes(i);
+            std::fs::write(format!("{dir}/seed-{i:04}"), &b[..(8 + (i as usize % 24))]).ok();
+            n += 1;
+        }
+    }
+    eprintln!("{n} seed files written to {dir}");
+    0
+}
+
+/// `verif fuzz-replay <ID> <artifact>`: decode a libFuzzer artifact into the property's case,
+/// re-evaluate it without the fuzzer, write a replay file and print the VIOLATION line.
+fn fuzz_replay(args: &[String]) -> i32 {
+    let id = args[2].clone();
+    let prop = prop_or_die(&id);
+    let data = std::fs::read(&args[3]).expect("artifact");
+    install_quiet_panic_hook();
+    let root = root();
+    let trace_path = format!("{root}/work/fuzz-replay-{}.ndjson", std::process::id());
+    std::fs::create_dir_all(format!("{root}/work")).ok();
+    let mut ctx = Ctx::new(prop.id(), Tier::Thorough, 0, "fuzz", 0, Known::load(&root));
+    ctx.trace = Some(std::fs::File::create(&trace_path).expect("trace"));
+    let r = verif::fuzz::fuzz_one(prop.id(), &mut ctx, &data);
+    drop(ctx);
+    let case: Value = last_line(&trace_path).and_then(|l| serde_json::from_str(&l).ok()).unwrap_or(json!({"fuzz_bytes_hex": verif::engine::hex(&data)}));
+    let _ = std::fs::remove_file(&trace_path);
+    match r {
+        Some(Err(f)) => {
+            let h = verif::engine::hash64(&case.to_string());
+            let path = format!("{root}/replays/{id}-{h:016x}.json");
+            std::fs::create_dir_all(format!("{root}/replays")).ok();
+            let rec = json!({"property": id, "stream": "libfuzzer", "block": 0, "seed": 0, "tier": "thorough", "category": f.category, "detail": f.detail, "case": case, "fuzz_bytes_hex": verif::engine::hex(&data)});
+            std::fs::write(&path, serde_json::to_string_pretty(&rec).unwrap()).expect("write replay");
+            eprintln!("  [{}] {}", f.category, f.detail.chars().take(400).collect::<String>());
+            println!("VIOLATION property={id} replay={path}");
+            1
+        }
+        _ => {
+            eprintln!("fuzz artifact {} does not reproduce as a property failure (known finding, or a fuzzer-side limit such as -timeout / -rss_limit)", args[3]);
+            0
+        }
+    }
+}
+
+/// `verif fuzz-report <ID> <logdir> <runs_per_job> <jobs> <artifacts>`: merge the campaign's numbers into the evidence file.
+fn fuzz_report(args: &[String]) -> i32 {
+    let id = &args[2];
+    let logdir = &args[3];
+    let root = root();
+    let path = format!("{root}/evidence/{id}.json");
+    let Some(mut ev) = std::fs::read_to_string(&path).ok().and_then(|t| serde_json::from_str::<Value>(&t).ok()) else { return 1 };
+    let mut total_runs = 0u64;
+    let mut max_cov = 0u64;
+    let mut corpus = 0u64;
+    if let Ok(rd) = std::fs::read_dir(logdir) {
+        for e in rd.flatten() {
+            let Ok(t) = std::fs::read_to_string(e.path()) else { continue };
+            for l in t.lines() {
+                if let Some(rest) = l.strip_prefix("Done ") {
+                    total_runs += rest.split_whitespace().next().and_then(|x| x.parse::<u64>().ok()).unwrap_or(0);
+                }
+                if l.contains(" cov: ") {
+                    let mut it = l.split_whitespace();
+                    while let Some(w) = it.next() {
+                        if w == "cov:" {
+                            max_cov = max_cov.max(it.next().and_then(|x| x.parse().ok()).unwrap_or(0));
+                        }
+                        if w == "corp:" {
+                            corpus = corpus.max(it.next().and_then(|x| x.split('/').next().and_then(|y| y.parse().ok())).unwrap_or(0));
+                        }
+                    }
+                }
+            }
+        }
+    }
+    ev["coverage"]["fuzz"] = json!({
+        "engine": "libFuzzer (cargo-fuzz 0.13, ASan, debug assertions), oracle inside the target; bytes decoded as text or through proptest's pass-through RNG",
+        "jobs": args.get(5).and_then(|x| x.parse::<u64>().ok()).unwrap_or(0),
+        "runs_per_job": args.get(4).and_then(|x| x.parse::<u64>().ok()).unwrap_or(0),
+        "runs_done": total_runs,
+        "edge_coverage_max": max_cov,
+        "corpus_units_max": corpus,
+        "artifacts": args.get(6).and_then(|x| x.parse::<u64>().ok()).unwrap_or(0),
+    });
+    if let Some(e) = ev["coverage"]["evaluations"].as_u64() {
+        ev["coverage"]["evaluations"] = json!(e + total_runs);
+    }
+    std::fs::write(&path, serde_json::to_string_pretty(&ev).unwrap()).expect("write evidence");
+    0
 }
